@@ -63,6 +63,11 @@ CLAIMS["C12"] = ("streamgate", "property-based testing (rapid): fault-injected s
     "Generated numbers and behaviours of stalled / slow / failing / disconnecting consumers attached through the real SyncChain while beacons are appended past the queue capacity; and generated partial floods on the real partialCache with invariants checked after every operation.",
     "Two real-time bounds (>= 400x normal) feed the oracle of part (a), each re-examined before it counts.", "DESIGN.md §3 C12")
 
+CLAIMS["C06"] = ("dkgnet", "property-based testing (rapid) of real DKG processes on an in-memory bus with generated listing orders and delivery schedules; oracle = pairwise group equality + harness-side polynomial/threshold-signature arithmetic",
+    "Real dkg.Process instances run the key generation / resharing under generated permutations, leaders and delivery policies; the outcome on every finisher is compared pairwise and checked with arithmetic done by the harness (share on polynomial, t-subsets sign, t-1 do not).",
+    "Real-time protocol (seconds per case): tens to hundreds of cases per run; message loss not generated.", "DESIGN.md §3 C06")
+ENGINES_EXTRA.append({"name": "dkgnet", "path": "harness/dkgnet", "serves_properties": ["C06", "C08", "C09"], "kind_free_text": "real dkg.Process + bolt dkg.db per node on an in-memory DKGClient bus with delivery policies and packet interception"})
+
 PENDING_REASON = "check not built yet in this session (planned, see DESIGN.md §3); not claimed until it exists and is silent on the unchanged tree"
 
 
